@@ -9,7 +9,7 @@ from mirsym.values import *
 from mirsym.harness import Session
 from mirsym.interp import Unsupported
 from mirsym import bmc, sync
-from mirsym.report import Violation
+from mirsym.report import Violation, is_open_known
 from mirsym.models import duration, duration_ns
 
 LEVEL = 'model_checking'
@@ -285,7 +285,7 @@ def run_configs(L, rep, tier, seed, prop, configs, make_queries, known_map, timi
         # reachability witnesses are searched in a shorter unrolling (reachable in fewer steps => reachable in K steps)
         wq = [q for q in qs if q[0].startswith('witness/')]
         qs = [q for q in qs if not q[0].startswith('witness/')]
-        res = bmc.solve_many(enc, qs, timeout_ms=timeout_ms, seed=seed, jobs=int(__import__('os').environ.get('VERIF_JOBS', '14')))
+        res = bmc.solve_many(enc, qs, timeout_ms=timeout_ms, seed=seed, jobs=int(__import__('os').environ.get('VERIF_JOBS', '14')), extract=lambda e, m: e.replay_info(m))
         if wq:
             encw = bmc.Encoder(enc.threads, enc.objects, min(K, 5), cap=enc.cap, spurious=enc.spurious, hooks=enc.hooks, symmetry=enc.symmetry)
             encw.ids = enc.ids
@@ -316,7 +316,9 @@ def run_configs(L, rep, tier, seed, prop, configs, make_queries, known_map, timi
                 key = known_map.get(qn)
                 rep.obligation(full, 'sat', seconds=round(secs, 1), known_finding=key)
                 rep.sample({'violation': full, 'schedule': tr})
-                v = Violation(prop, key, '%s: %s' % (full, describe(tr)), {'kind': 'schedule', 'config': list(cfg[:7]), 'query': qn, 'schedule': tr}, full)
+                v = Violation(prop, key, '%s: %s' % (full, describe(tr)), {'kind': 'schedule', 'config': [str(x) for x in cfg[:7]], 'query': qn, 'schedule': tr}, full)
+                if not is_open_known(prop, key) and exx and __import__('os').environ.get('VERIF_NO_REPLAY') != '1':
+                    replay_queue(L, v, cfg, exx, rep)
                 rep.violation(v)
             else:
                 rep.obligation(full, 'unknown', seconds=round(secs, 1), solver=verdict)
@@ -391,3 +393,21 @@ def single_call_contracts(L, rep, tier, seed, prop):
 
 def hooks_last_payload(enc):
     return enc.S[enc.K]['last_payload']
+
+
+def replay_queue(L, v, cfg, info, rep):
+    """the schedule is replayed on the real messages_queue.rs under the controlled runtime"""
+    from mirsym import replay_sched
+    name, P, m, C, r, U = cfg[:6]
+    producers = {'p%d' % p: [(p + 1) * 16 + j for j in range(m)] for p in range(P)}
+    receivers = {'c%d' % c: r for c in range(C)}
+    unbl = ['u%d' % u for u in range(U)]
+    threads = replay_sched.queue_programs(info['ops'], producers, receivers, unbl)
+    pred = {'results': sorted((t, sum(1 for (t2, o2, p2) in info['ops'][:i] if t2 == t and o2 == 'result'), (p['id'] if p.get('some') else None))
+                              for i, (t, o, p) in enumerate(info['ops']) if o == 'result'),
+            'parked': info['parked']}
+    v.scenario['threads'] = threads
+    v.scenario['ops'] = info['ops']
+    replay_sched.confirm(L, v, 'queue', threads, info, pred)
+    if v.reproduced is not None:
+        rep.replays += 1
